@@ -783,13 +783,13 @@ func init() {
 		ID:      "C32",
 		Imports: "From Akita Require Import Lib.Base C32.Model C32.Exec.",
 		Rule: "asm: random memasm assemblies of real components (agent -> [ROB] -> 0..2 caches of the four kinds -> ideal/banked/DRAM, " +
-			"random geometries) with a recording tracer on every component and (2/3 of cases) buffer tracing on every port; the script is " +
-			"2-3 traffic phases over disjoint line pools separated by control histories (legal Pause/Drain -> Invalidate/Flush -> Enable " +
-			"sequences, illegal ones, and Reset of one or all modules in the middle of traffic) and ends with Enable + Reset of every module, " +
-			"twice, top-down; run to quiescence. api: random interleavings of request / buffer / subtask lifecycles over 1-3 domains and " +
-			"real ports, each closed by the normal helper or by the reset helper, plus unpaired calls (open scripts). " +
-			"Non-trivial: asm with a Reset in the middle of traffic, >= 20 tasks and the script completed; api closed with resets and >= 5 tasks. " +
-			"Distinct = distinct input hash.",
+			"random geometries; a share of leaf-only assemblies) with a recording tracer on every component and (7/8 of cases) buffer " +
+			"tracing on every port; the script is 2-3 stretches of traffic over disjoint line pools separated by control histories (legal " +
+			"Pause/Drain -> Invalidate/Flush -> Enable sequences, illegal/unsupported verbs, Pause->Reset, and Reset of the top k modules " +
+			"in the middle of traffic) and ends with Enable+Reset of every module top-down, then bottom-up; run to quiescence. " +
+			"api: random interleavings of request / buffer / subtask lifecycles over 1-3 domains and real ports, each closed by the normal " +
+			"helper or by the reset helper, plus scripts left open. Non-trivial: asm with a Reset in the middle of traffic, >= 20 tasks and " +
+			"the script completed; api closed with resets and >= 5 tasks. Distinct = distinct input hash.",
 		Gen: gen, Run: run, Shrink: shrink,
 	})
 }
